@@ -83,23 +83,38 @@ static int validate_checksums(zckCtx *zck, zck_log_type bad_checksums) {
             return 0;
 
         size_t rlen = 0;
+        bool short_read = false;
         while(rlen < idx->comp_length) {
             size_t rsize = BUF_SIZE;
             if(BUF_SIZE > idx->comp_length - rlen)
                 rsize = idx->comp_length - rlen;
-            if(read_data(zck, buf, rsize) != rsize)
-                zck_log(ZCK_LOG_DEBUG, "No more data");
-            if(!hash_update(zck, &(zck->check_chunk_hash), buf, rsize))
+            ssize_t rb = read_data(zck, buf, rsize);
+            if(rb < 0)
                 return 0;
-            if(!zck->has_uncompressed_source) {
-                if(!hash_update(zck, &(zck->check_full_hash), buf, rsize))
+            /* Only hash what was actually read; a chunk that ends early can
+             * never be valid */
+            if(rb > 0) {
+                if(!hash_update(zck, &(zck->check_chunk_hash), buf, rb))
                     return 0;
+                if(!zck->has_uncompressed_source) {
+                    if(!hash_update(zck, &(zck->check_full_hash), buf, rb))
+                        return 0;
+                }
+            }
+            if((size_t)rb < rsize) {
+                zck_log(ZCK_LOG_DEBUG, "No more data");
+                short_read = true;
+                break;
             }
             rlen += rsize;
         }
         int valid_chunk = validate_chunk(idx, bad_checksums);
         if(!valid_chunk)
             return 0;
+        if(short_read && valid_chunk == 1) {
+            valid_chunk = -1;
+            idx->valid = -1;
+        }
         idx->valid = valid_chunk;
         if(all_good && valid_chunk != 1)
             all_good = false;
@@ -415,8 +430,13 @@ int ZCK_PUBLIC_API zck_validate_data_checksum(zckCtx *zck) {
             size_t rb = BUF_SIZE;
             if(rb > to_read)
                 rb = to_read;
-            if(!read_data(zck, buf, rb))
+            ssize_t rd = read_data(zck, buf, rb);
+            if(rd < 0)
                 return 0;
+            if((size_t)rd != rb) {
+                set_error(zck, "Unexpected end of data");
+                return 0;
+            }
             if(!hash_update(zck, &(zck->check_full_hash), buf, rb))
                 return 0;
             to_read -= rb;
